@@ -8,31 +8,6 @@
 //  * IndexMap<StateId, IndexMap<InpId, StateId>>::get and iteration over an inner map.
 verus! {
 
-impl DFA {
-    #[verifier::external_body]
-    fn iter_transitions(&self) -> (r: Vec<(StateId, InpId, StateId)>)
-        ensures
-            forall|k: int| 0 <= k < r@.len() ==> used(*self, (#[trigger] r@[k]).0, r@[k].1) && self.transitions@[r@[k].0][r@[k].1] == r@[k].2,
-            forall|q: u32, id: InpId| #[trigger] used(*self, q, id) ==> exists|k: int| 0 <= k < r@.len() && #[trigger] r@[k] == (q, id, self.transitions@[q][id]),
-    { unimplemented!() }
-
-    #[verifier::external_body]
-    fn iter_inputs(&self) -> (r: Vec<&Inp>)
-        requires dfa_wf(*self)
-        ensures
-            forall|k: int| 0 <= k < r@.len() ==> on_edge(*self, *(#[trigger] r@[k])),
-            forall|x: Inp| on_edge(*self, x) ==> exists|k: int| 0 <= k < r@.len() && *(#[trigger] r@[k]) == x,
-    { unimplemented!() }
-
-    #[verifier::external_body]
-    fn iter_subwords(&self) -> (r: Vec<&DFA>)
-        requires dfa_wf(*self), subs_wf(*self)
-        ensures
-            forall|k: int| 0 <= k < r@.len() ==> is_subword_of(*self, *(#[trigger] r@[k])),
-            forall|s: DFA| is_subword_of(*self, s) ==> exists|k: int| 0 <= k < r@.len() && *(#[trigger] r@[k]) == s,
-            r@.len() > 0 <==> exists|s: DFA| #[trigger] is_subword_of(*self, s),
-    { unimplemented!() }
-}
 
 /// `==` on Ustr (an interned pointer) is identity of the interned string
 #[verifier::external_body]
